@@ -894,6 +894,13 @@ package diam
 //@   requires msc != nil && msc.s != nil && sheapok(msc.s) && smapok(msc.s) && !locked(&msc.streamBuffMu)
 //@   ensures [C19] buffered_bytes_keep_their_stream: old(len(msc.s.streamHeap) > 0 && bqlen(msc.s.streamHeap[0].Buffer) > 0) ==>
 //@           lastbufread() == old(msc.s.streamHeap[0].Buffer) && stream == old(msc.s.streamHeap[0].stream)
+//@   # ASSUMED (the kernel's part of C19, and the FIFO order inside a parked buffer): the bytes delivered are the next n bytes
+//@   # of the stream reported, no other stream's cursor moves, and data arrives with its stream number (SndRcvInfo present)
+//@   ensures [C19 assumed] cursor: 0 <= n && n <= len(b) && pos(substream(msc, stream)) == old(pos(substream(msc, stream))) + n &&
+//@           (forall s uint :: s != stream ==> pos(substream(msc, s)) == old(pos(substream(msc, s))))
+//@   ensures [C19 assumed] data_comes_with_its_stream_number: err == nil ==> stream != InvalidStreamID
+//@   # (on an error the user's error handler runs, which may do anything)
+//@   ensures [C19] buffers_stay_well_formed: err == nil ==> sheapok(msc.s) && smapok(msc.s) && !locked(&msc.streamBuffMu)
 //@ end
 //@ func (*SCTPConn).verifyStreamBuff(msc, b, n, stream, currErr) (rn, err)
 //@   property C19
@@ -919,8 +926,33 @@ package diam
 //@   # ARGn: the actual arguments of the call (receiver first)
 //@   atcall Read: [C19] parked_bytes_come_from_the_buffer_of_the_stream_asked_for: has(msc.s.streamMap, stream) && ARG0 == msc.s.streamMap[stream].Buffer
 //@   atcall bufferStreamData: [C19] only_other_streams_data_is_parked: ARG2 != stream
+//@   # ASSUMED (kernel and FIFO order, as for ReadAny): the next n bytes of the stream asked for, no other cursor moves
+//@   ensures [C19 assumed] cursor: 0 <= n && n <= len(b) && pos(substream(msc, stream)) == old(pos(substream(msc, stream))) + n &&
+//@           (forall s uint :: s != stream ==> pos(substream(msc, s)) == old(pos(substream(msc, s))))
+//@   ensures [C19] buffers_stay_well_formed: sheapok(msc.s) && smapok(msc.s) && !locked(&msc.streamBuffMu)
 //@   loop 0
 //@     invariant [C19] under_the_buffer_lock: locked(&msc.streamBuffMu) && sheapok(msc.s) && smapok(msc.s)
+//@   end
+//@ end
+//@
+//@ # ReadAtLeast (what readHeader / readBody call): all bytes it returns come from ONE stream - the one asked for, or the
+//@ # one the first read reported - in that stream's order, and it stops as soon as min bytes are there. Verified against
+//@ # the cursor clauses of ReadAny / ReadStream above (which are assumed); the interface-level contract that the message
+//@ # reader uses (trusted.spec) says the same.
+//@ func (*SCTPConn).ReadAtLeast(msc, buf, min, strm) (n, stream, err)
+//@   property C19
+//@   requires msc != nil && msc.s != nil && sheapok(msc.s) && smapok(msc.s) && !locked(&msc.streamBuffMu) && 0 <= min
+//@   ensures [C19] the_stream_asked_for: strm != InvalidStreamID && min <= len(buf) ==> stream == strm
+//@   ensures [C19] bytes_of_one_stream_in_order: 0 <= n && n <= len(buf) && pos(substream(msc, stream)) == old(pos(substream(msc, stream))) + n
+//@   ensures [C19] no_other_stream_consumed: forall s uint :: s != stream ==> pos(substream(msc, s)) == old(pos(substream(msc, s)))
+//@   ensures [C19] at_least_min: err == nil ==> min <= n
+//@   ensures [C19] nothing_read_into_a_short_buffer: len(buf) < min ==> n == 0 && err != nil
+//@   loop 0
+//@     invariant [C19] so_far_from_that_stream: 0 <= n && n <= len(buf) && pos(substream(msc, stream)) == old(pos(substream(msc, stream))) + n &&
+//@               (forall s uint :: s != stream ==> pos(substream(msc, s)) == old(pos(substream(msc, s))))
+//@     invariant buffers_well_formed: (err == nil ==> sheapok(msc.s) && smapok(msc.s) && !locked(&msc.streamBuffMu)) && min <= len(buf)
+//@     invariant [C19] a_real_stream: err == nil ==> stream != InvalidStreamID
+//@     invariant asked_for: strm != InvalidStreamID ==> stream == strm
 //@   end
 //@ end
 //@
